@@ -5,7 +5,9 @@
 (* as JSON when it reaches GenDepth; the harness executes it on real code.    *)
 EXTENDS PithosMC, Json
 
-CONSTANT GenDepth
+CONSTANTS GenDepth,
+          OpBoost,    \* set of operation names whose weight is multiplied (per-family emphasis)
+          BoostFactor
 
 R(s) == RandomElement(s)
 RW(q) == q[RandomElement(1..Len(q))]     \* weighted choice: q lists values with multiplicity
@@ -73,7 +75,9 @@ OpW == <<"CreateBucket", "DeleteBucket", "PutVersioning", "PutVersioning", "PutO
          "GetObject", "DeleteObject", "DeleteObject", "DeleteObject", "CopyObject", "CopyObject", "AppendObject", "AppendObject",
          "CreateUpload", "UploadPart", "UploadPart", "UploadPartCopy", "CompleteUpload", "CompleteUpload", "AbortUpload",
          "PutTagging", "Transition">>
-OpWSel == SelectSeq(OpW, LAMBDA o : o \in Ops)
+OpWBase == SelectSeq(OpW, LAMBDA o : o \in Ops)
+OpWBoost == SelectSeq(OpWBase, LAMBDA o : o \in OpBoost)
+OpWSel == OpWBase \o FlattenSeq([i \in 1..BoostFactor |-> OpWBoost])
 GenNext == Step(RandCall(RW(OpWSel), S))
 GenSpec == GenInit /\ [][GenNext]_vars
 
